@@ -1,4 +1,5 @@
 import CbiVerif.Props.C17Table
+import CbiVerif.Props.C17Loop
 import CbiVerif.Model.FSource
 import CbiVerif.Model.FCond
 import CbiVerif.Spec.FortranRef
